@@ -143,5 +143,35 @@ pub fn run(seed: u64, cases: u64, replay: Option<&str>, o: &mut Out) {
         let line = gen_line(&mut r);
         let res = exec_line(&line);
         o.line(&line, &res);
+        emit_monitors(&line, &res, o);
+    }
+}
+
+/// monitors on the implementation's answer: fee shares (C04), x*y (C03), exact-invariant accuracy
+/// and monotonicity for stableswap (C19, C03)
+fn emit_monitors(line: &str, res: &str, o: &mut Out) {
+    if !line.starts_with("swap ") || !res.starts_with("ok ") { return; }
+    let rt: Vec<u128> = res.split_whitespace().skip(1).map(|x| x.parse().unwrap()).collect();
+    let (ret, _slip, sf, pf, bf, ef) = (rt[0], rt[1], rt[2], rt[3], rt[4], rt[5]);
+    let mut t = Toks::new(line);
+    t.s();
+    let pool = t.pool();
+    let od = t.s().to_string(); let offer = t.u128(); let ad = t.s().to_string();
+    o.line(&format!("mon_swap_fees {} {} {} {} {} {}", fees_str(&pool.pool_fees), ret, sf, pf, bf, ef), "ok");
+    let x = pool.assets.iter().find(|c| c.denom == od).unwrap().amount.u128();
+    let y = pool.assets.iter().find(|c| c.denom == ad).unwrap().amount.u128();
+    let Some(x2) = x.checked_add(offer) else { return };
+    let out = ret + pf + bf;
+    if out > y { o.line(&format!("mon_swap_reserves cp {} {} {} {} {} {} {} {}", x, y, offer, x2, 0, ret, pf, bf), "ok"); return; }
+    let cp = matches!(pool.pool_type, PoolType::ConstantProduct);
+    o.line(&format!("mon_swap_reserves {} {} {} {} {} {} {} {} {}", if cp { "cp" } else { "ss" }, x, y, offer, x2, y - out, ret, pf, bf), "ok");
+    if !cp {
+        let gross = ret + sf + pf + bf + ef;
+        let pl = line.strip_prefix("swap ").unwrap();
+        // the pool description is everything up to the offer denom token
+        let pool_s = pool_str(&pool);
+        let _ = pl;
+        o.line(&format!("mon_ss_quote {} {} {} {} {}", pool_s, od, offer, ad, gross), "ok");
+        o.line(&format!("mon_ss_swap {} {} {} {} {} {}", pool_s, od, offer, ad, gross, out), "ok");
     }
 }
